@@ -57,7 +57,7 @@ def decoder_sweep(ctx, n):
         b = vals.rb(rng, ln)
         if ln == 32:
             m = ref.ristretto_decode(b)
-            ctx.add('rs.fromslice', hx(b), expect=[b.hex()] + (['none'] if m is None else [b.hex()]), cls='slice')
+            ctx.add('rs.fromslice', hx(b), expect=([b.hex(), 'none'] if m is None else pts.both(pts.tok_is(0, b.hex()), pts.tok_is(1, b.hex()), pts.expect_rs(m, idx=1))), cls='slice')
             ctx.add('rs.tryfrom', hx(b), expect=[b.hex()], cls='slice')
         else:
             ctx.add('rs.fromslice', hx(b), expect=['err'], cls='slice')
